@@ -142,6 +142,12 @@ func c12Child(a []string) {
 	case 3:
 		args = []any{slog.Int("k", 1)}
 	}
+	if via%4 == 3 {
+		// refused presentation settings stay refused: a tag width outside 1..5, a minimal width below 16
+		slog.SetLevelOutputWidth(6)
+		slog.SetLevelOutputWidth(0)
+		slog.SetMessageMinimalWidth(3)
+	}
 	// … nor has the context: a logger with registered context keys, given a context without them or no context at all
 	ctx := context.Background()
 	if via%4 == 2 {
@@ -170,6 +176,7 @@ func c12Neg(a []string) {
 		for _, L := range []int{6, 8, 0} {
 			slog.SetLevelOutputWidth(map[int]int{6: 5, 8: 4, 0: 3}[L])
 			l := c12Setup(recv, L, flags, a[1], L)
+			slog.SetLevelOutputWidth(6) // refused: the width set above stays
 			cx := ctx
 			if L == 6 {
 				// the most admitting logger has context keys registered and is given no context at all
